@@ -1,3 +1,5 @@
 -- root of the property-theorem library; one import per file
 import IOptProps.C09
 import IOptProps.C07num
+import IOptProps.C07
+import IOptProps.C08
